@@ -43,8 +43,9 @@ class World(object):
             def hook(obj): W.hook(phase, kind, obj)
             return hook
         hooks = {'%s_%s' % (p, k): mk(p, k) for p in ('before', 'after') for k in ('insert', 'update', 'delete')}
-        self.G = type('G', (db.Entity,), dict(id=PrimaryKey(int), a=Required(int), items=Set('I'), **hooks))
+        self.G = type('G', (db.Entity,), dict(id=PrimaryKey(int), a=Required(int), items=Set('I'), tags=Set('T'), **hooks))
         self.I = type('I', (db.Entity,), dict(id=PrimaryKey(int), g=Required('G'), a=Required(int), **hooks))
+        self.T = type('T', (db.Entity,), dict(id=PrimaryKey(int), a=Required(int), gs=Set('G'), **hooks))
         @db.on_connect(provider='sqlite')
         def setup(db, connection):
             connection.execute('pragma synchronous = off')
@@ -53,23 +54,36 @@ class World(object):
         # event after an `execute` of the recording connection is the statement itself
         self.armed = False
         def arm(ev):
-            if ev['call'] in ('execute', 'executemany'): W.armed = True
+            if ev['call'] == 'execute': W.armed = 'one'
+            elif ev['call'] == 'executemany': W.armed = 'many'        # one trace event per row of the batch
         self.tr.before_call.append(arm)
         db.bind('sqlite', path, create_db=True, **self.tr.bind_kwargs())
         db.generate_mapping(create_tables=True)
         self.raw = sqlite3.connect(path, isolation_level=None)
         self.raw.execute('pragma synchronous = off')
+        self.link_table = self.G.tags.table if isinstance(self.G.tags.table, str) else self.G.tags.table[-1]
+        self.link_g_col = self.T.gs.columns[0]        # column of the link table that holds the G key
+        self.link_t_col = self.G.tags.columns[0]
         self.reset_case()
 
     def reset_case(self):
         self.reg = []; self.oid = {}; self.expected = []; self.cls = []; self.refs = []
         self.script = {}; self.calls = {}; self.log = []; self.sql = []; self.in_hook = 0
+        self.links = set()        # the engine's own book of many-to-many pairs (g oid, t oid)
 
     # -- statements ----------------------------------------------------------------------------------------------------
     def on_sql(self, text):
         if not self.armed: return
-        self.armed = False
+        if self.armed == 'one': self.armed = False
         t = ' '.join(text.split())
+        m = re.match(r'INSERT INTO "%s" \("(\w+)", "(\w+)"\) VALUES \((-?\d+), (-?\d+)\)' % self.link_table, t)
+        if m:
+            d = {m.group(1): int(m.group(3)) - 1, m.group(2): int(m.group(4)) - 1}
+            self.log.append(['linkIns', d[self.link_g_col], d[self.link_t_col]]); self.sql.append(t); return
+        m = re.match(r'DELETE FROM "%s" WHERE "(\w+)" = (-?\d+) AND "(\w+)" = (-?\d+)' % self.link_table, t)
+        if m:
+            d = {m.group(1): int(m.group(2)) - 1, m.group(3): int(m.group(4)) - 1}
+            self.log.append(['linkDel', d[self.link_g_col], d[self.link_t_col]]); self.sql.append(t); return
         m = re.match(r'INSERT INTO "(\w+)" \(([^)]*)\) VALUES \((-?\d+)', t)
         if m:
             assert m.group(2).split(',')[0].strip() == '"id"', t
@@ -88,9 +102,14 @@ class World(object):
         self.oid[obj] = len(self.reg); self.reg.append(obj); self.cls.append(cls); self.expected.append(value)
         self.refs.append([] if ref is None else [ref])
 
-    def create(self, cls, ref):
+    def create(self, cls, ref, tags=None):
         oid = len(self.reg)
-        if cls == 'G': obj = self.G(id=oid + 1, a=0)
+        if cls == 'G':
+            if tags is not None:
+                if tags >= len(self.reg) or self.cls[tags] != 'T': raise HookScriptError('no such T %r' % (tags,))
+                obj = self.G(id=oid + 1, a=0, tags=[self.reg[tags]]); self.links.add((oid, tags))
+            else: obj = self.G(id=oid + 1, a=0)
+        elif cls == 'T': obj = self.T(id=oid + 1, a=0)
         else:
             if ref is None or ref >= len(self.reg) or self.cls[ref] != 'G': raise HookScriptError('no such G %r' % (ref,))
             obj = self.I(id=oid + 1, g=self.reg[ref], a=0)
@@ -106,6 +125,25 @@ class World(object):
     def read(self, t):
         if t < len(self.reg): self.reg[t].a
 
+    def link(self, g, t, add):
+        if g >= len(self.reg) or t >= len(self.reg) or self.cls[g] != 'G' or self.cls[t] != 'T': raise HookScriptError('no such pair %r' % ((g, t),))
+        if add: self.reg[g].tags.add(self.reg[t]); self.links.add((g, t))
+        else: self.reg[g].tags.remove(self.reg[t]); self.links.discard((g, t))
+
+    def setref(self, i, g):
+        if i >= len(self.reg) or g >= len(self.reg) or self.cls[i] != 'I' or self.cls[g] != 'G': raise HookScriptError('no such I/G %r' % ((i, g),))
+        self.reg[i].g = self.reg[g]
+        self.refs[i] = [g]
+
+    def run_op(self, op):
+        if op[0] == 'read': self.read(op[1])
+        elif op[0] == 'modify': self.modify(op[1])
+        elif op[0] == 'create': self.create(op[1], op[2], op[3] if len(op) > 3 else None)
+        elif op[0] == 'link': self.link(op[1], op[2], True)
+        elif op[0] == 'unlink': self.link(op[1], op[2], False)
+        elif op[0] == 'createT_link': self.create('T', None); self.link(op[1], len(self.reg) - 1, True)
+        elif op[0] == 'setref': self.setref(op[1], op[2])
+
     # -- hooks -----------------------------------------------------------------------------------------------------------
     def hook(self, phase, kind, obj):
         oid = self.oid[obj]
@@ -115,10 +153,7 @@ class World(object):
         e = self.script.get(key)
         if e is None: return
         ops = e['calls'][n] if n < len(e['calls']) else e['rest']
-        for op in ops:
-            if op[0] == 'read': self.read(op[1])
-            elif op[0] == 'modify': self.modify(op[1])
-            elif op[0] == 'create': self.create(op[1], op[2])
+        for op in ops: self.run_op(op)
 
     def close(self):
         try: self.db.disconnect()
@@ -131,46 +166,58 @@ class World(object):
 # ---------------------------------------------------------------------------------------------------------------------
 
 def gen_case(rng, shape=None):
-    nG = rng.choice([1, 1, 2, 3]); nI = rng.choice([0, 1, 2, 3])
-    init = [['G', None] for _ in range(nG)] + [['I', rng.randrange(nG)] for _ in range(nI)]
+    nG = rng.choice([1, 1, 2, 3]); nI = rng.choice([0, 1, 2, 3]); nT = rng.choice([0, 1, 2, 2])
+    init = [['G', None] for _ in range(nG)] + [['I', rng.randrange(nG)] for _ in range(nI)] + [['T', None] for _ in range(nT)]
+    links0 = [[g, nG + nI + t] for g in range(nG) for t in range(nT) if rng.random() < 0.4]
     n0 = len(init)
-    pre = []; n = n0; cls = [c for c, _ in init]; deleted = set(); created = set()
-    for _ in range(rng.choice([0, 1, 2, 3, 4, 5])):
+    pre = []; n = n0; cls = [c for c, _ in init]; deleted = set()
+    def live(c): return [i for i in range(n) if cls[i] == c and i not in deleted]
+    for _ in range(rng.choice([0, 1, 2, 3, 4, 5, 6])):
         r = rng.random()
-        live = [i for i in range(n) if i not in deleted]
-        if r < 0.35 and live:
-            pre.append(['modify', rng.choice(live)])
-        elif r < 0.55:
-            pre.append(['create', 'G', None]); cls.append('G'); created.add(n); n += 1
-        elif r < 0.8:
-            gs = [i for i in live if cls[i] == 'G']
-            if gs:
-                pre.append(['create', 'I', rng.choice(gs)]); cls.append('I'); created.add(n); n += 1
-        elif live:
-            t = rng.choice(live)
+        alive = [i for i in range(n) if i not in deleted]
+        if r < 0.25 and alive:
+            pre.append(['modify', rng.choice(alive)])
+        elif r < 0.37:
+            pre.append(['create', 'G', None]); cls.append('G'); n += 1
+        elif r < 0.45:
+            pre.append(['create', 'T', None]); cls.append('T'); n += 1
+        elif r < 0.52 and live('T'):
+            pre.append(['create', 'G', None, rng.choice(live('T'))]); cls.append('G'); n += 1
+        elif r < 0.64 and live('G'):
+            pre.append(['create', 'I', rng.choice(live('G'))]); cls.append('I'); n += 1
+        elif r < 0.8 and live('G') and live('T'):
+            pre.append([rng.choice(['link', 'link', 'unlink']), rng.choice(live('G')), rng.choice(live('T'))])
+        elif r < 0.87 and live('I') and live('G'):
+            pre.append(['setref', rng.choice(live('I')), rng.choice(live('G'))])
+        elif alive:
+            t = rng.choice(alive)
             pre.append(['delete', t]); deleted.add(t)
-            # cascade: the items of a deleted G are deleted too (the real cache tells; here only for the generator's target choice)
-            if cls[t] == 'G':
-                for i, (c, ref) in enumerate(init):
-                    if c == 'I' and ref == t: deleted.add(i)
-                for op_i, op in enumerate(pre):
-                    pass
-    # objects that hooks may touch: everything known now plus a few that hooks may create
+            if cls[t] == 'G':      # cascade (approximation for the generator's target choice only; the real cache decides)
+                for i, e in enumerate(init):
+                    if e[0] == 'I' and e[1] == t: deleted.add(i)
     horizon = n + 3
-    never_deleted = [i for i in range(n) if i not in deleted and not (cls[i] == 'I')]
+    never_deleted = [i for i in range(n) if i not in deleted and cls[i] != 'I']
+    action = rng.choice(['flush', 'flush', 'commit', 'entity_flush'])
     def body():
         ops = []
         for _ in range(rng.choice([0, 1, 1, 1, 2, 3])):
             r = rng.random()
-            if r < 0.15:
+            if r < 0.1:
                 if never_deleted: ops.append(['read', rng.choice(never_deleted)])
-            elif r < 0.6:
+            elif r < 0.4:
                 t = rng.randrange(horizon) if rng.random() < 0.25 else rng.choice([i for i in range(n) if i not in deleted] or [0])
                 ops.append(['modify', t])
-            elif r < 0.8: ops.append(['create', 'G', None])
+            elif r < 0.5: ops.append(['create', 'G', None])
+            elif r < 0.6:
+                ops.append(['create', 'I', rng.choice(live('G'))] if live('G') else ['create', 'G', None])
+            elif r < 0.78:
+                if live('G') and live('T'): ops.append([rng.choice(['link', 'link', 'unlink']), rng.choice(live('G')), rng.choice(live('T'))])
+            elif r < 0.86:
+                if live('G'): ops.append(['createT_link', rng.choice(live('G'))])
+            elif r < 0.93:
+                if live('T'): ops.append(['create', 'G', None, rng.choice(live('T'))])
             else:
-                gs = [i for i in range(n) if cls[i] == 'G' and i not in deleted]
-                ops.append(['create', 'I', rng.choice(gs)] if gs else ['create', 'G', None])
+                if action != 'entity_flush' and live('I') and live('G'): ops.append(['setref', rng.choice(live('I')), rng.choice(live('G'))])
         return ops
     script = []
     p_hook = rng.choice([0.15, 0.3, 0.5])
@@ -181,11 +228,25 @@ def gen_case(rng, shape=None):
                     calls = [body() for _ in range(rng.choice([1, 1, 2]))]
                     rest = []
                     if phase == 'after' and rng.random() < 0.06: rest = [['modify', oid]]          # never settles: the 50-round limit
-                    if phase == 'after' and kind == 'delete':
-                        calls = [[op for op in c if not (op[0] in ('modify', 'read') and op[1] == oid)] for c in calls]; rest = []
+                    if kind == 'delete':
+                        # a deleted object cannot be read / assigned / own a link any more
+                        calls = [[op for op in c if not (op[0] in ('modify', 'read', 'link', 'unlink', 'createT_link', 'setref') and oid in op[1:])
+                                  and not (op[0] == 'create' and oid in op[2:])] for c in calls]; rest = []
                     script.append({'phase': phase, 'kind': kind, 'obj': oid, 'calls': calls, 'rest': rest})
-    action = rng.choice(['flush', 'flush', 'commit', 'entity_flush'])
-    return {'init': init, 'pre': pre, 'script': script, 'action': action, 'pick': rng.randrange(1000)}
+    return {'init': init, 'links0': links0, 'pre': pre, 'script': script, 'action': action, 'pick': rng.randrange(1000)}
+
+
+def model_ops(ops):
+    out = []
+    for op in ops:
+        if op[0] in ('read', 'modify'): out.append([op[0], op[1]])
+        elif op[0] == 'create':
+            out.append(['create'])
+            if len(op) > 3 and op[3] is not None: out.append(['linkNewOwner', op[3]])
+        elif op[0] in ('link', 'unlink'): out.append([op[0], op[1], op[2]])
+        elif op[0] == 'createT_link': out.append(['create']); out.append(['linkNewItem', op[1]])
+        elif op[0] == 'setref': out.append(['modify', op[1]])
+    return out
 
 
 SHAPES = [
@@ -205,6 +266,14 @@ SHAPES = [
     {'name': 'obj.flush(): before_insert creates the referenced chain', 'init': [['G', None]], 'pre': [['create', 'G', None], ['create', 'I', 1]],
      'script': [{'phase': 'before', 'kind': 'insert', 'obj': 2, 'calls': [[['create', 'G', None], ['modify', 1]]], 'rest': []},
                 {'phase': 'after', 'kind': 'insert', 'obj': 1, 'calls': [[['modify', 0]]], 'rest': []}], 'action': 'entity_flush', 'pick': 2},
+    {'name': 'before_update adds and removes many-to-many links', 'init': [['G', None], ['T', None], ['T', None]], 'links0': [[0, 1]], 'pre': [['modify', 0]],
+     'script': [{'phase': 'before', 'kind': 'update', 'obj': 0, 'calls': [[['link', 0, 2], ['unlink', 0, 1]]], 'rest': []}], 'action': 'commit', 'pick': 0},
+    {'name': 'before_insert links the new object to a tag it creates', 'init': [['G', None]], 'links0': [], 'pre': [['create', 'G', None]],
+     'script': [{'phase': 'before', 'kind': 'insert', 'obj': 1, 'calls': [[['createT_link', 1], ['createT_link', 0]]], 'rest': []}], 'action': 'commit', 'pick': 0},
+    {'name': 'before_delete creates an object with a collection', 'init': [['G', None], ['T', None], ['I', 0]], 'links0': [], 'pre': [['delete', 2]],
+     'script': [{'phase': 'before', 'kind': 'delete', 'obj': 2, 'calls': [[['create', 'G', None, 1]]], 'rest': []}], 'action': 'commit', 'pick': 0},
+    {'name': 'after_update changes links and a reference', 'init': [['G', None], ['G', None], ['I', 0], ['T', None]], 'links0': [[0, 3]], 'pre': [['modify', 2]],
+     'script': [{'phase': 'after', 'kind': 'update', 'obj': 2, 'calls': [[['unlink', 0, 3], ['link', 1, 3], ['setref', 2, 1]]], 'rest': []}], 'action': 'commit', 'pick': 0},
     {'name': 'hook touches a deleted object', 'init': [['G', None], ['G', None]], 'pre': [['delete', 1], ['modify', 0]],
      'script': [{'phase': 'before', 'kind': 'update', 'obj': 0, 'calls': [[['modify', 1]]], 'rest': []}], 'action': 'flush', 'pick': 0},
 ]
@@ -214,42 +283,67 @@ SHAPES = [
 # running a case on the real code
 # ---------------------------------------------------------------------------------------------------------------------
 
+def link_state(W):
+    """(view, pendAdd, pendRem) of the many-to-many relationship as the real cache holds it (G side), as oid pairs"""
+    view, add, rem = set(), set(), set()
+    attr = W.G.tags
+    for o in W.reg:
+        if not isinstance(o, W.G) or o._vals_ is None: continue
+        sd = o._vals_.get(attr)
+        if sd is None: continue
+        g = W.oid[o]
+        for t in sd: view.add((g, W.oid[t]))
+        for t in (sd.added or ()): add.add((g, W.oid[t]))
+        for t in (sd.removed or ()): rem.add((g, W.oid[t]))
+    return sorted(map(list, view)), sorted(map(list, add)), sorted(map(list, rem))
+
+
 def run_real(W, case):
     W.db.disconnect()
     raw = W.raw
-    raw.execute('begin'); raw.execute('delete from "I"'); raw.execute('delete from "G"')
-    for i, (c, ref) in enumerate(case['init']):
+    raw.execute('begin'); raw.execute('delete from "%s"' % W.link_table); raw.execute('delete from "I"'); raw.execute('delete from "G"'); raw.execute('delete from "T"')
+    for i, e in enumerate(case['init']):
+        c, ref = e[0], e[1]
         if c == 'G': raw.execute('insert into "G" (id, a) values (?, 0)', (i + 1,))
-        else: raw.execute('insert into "I" (id, g, a) values (?, ?, 0)', (i + 1, ref + 1))
+        elif c == 'T': raw.execute('insert into "T" (id, a) values (?, 0)', (i + 1,))
+    for i, e in enumerate(case['init']):
+        if e[0] == 'I': raw.execute('insert into "I" (id, g, a) values (?, ?, 0)', (i + 1, e[1] + 1))
+    for g, t in case.get('links0', []):
+        raw.execute('insert into "%s" ("%s", "%s") values (?, ?)' % (W.link_table, W.link_g_col, W.link_t_col), (g + 1, t + 1))
     raw.execute('commit')
     W.reset_case()
+    W.links = set((g, t) for g, t in case.get('links0', []))
     W.script = {(e['phase'], e['kind'], e['obj']): e for e in case['script']}
     res = {'error': None, 'skipped': None}
-    m = W.tr.mark()
     try:
         with db_session:
             cache = W.db._get_cache()
-            for i, (c, ref) in enumerate(case['init']):
-                obj = (W.G if c == 'G' else W.I)[i + 1]
+            for i, e in enumerate(case['init']):
+                c, ref = e[0], e[1]
+                obj = {'G': W.G, 'I': W.I, 'T': W.T}[c][i + 1]
                 W.register(obj, c, 0, ref if c == 'I' else None)
+            for o in W.reg:
+                if isinstance(o, W.G): o.tags.load()
             dirty = [0] * len(W.reg)
             for op in case['pre']:
                 try:
-                    if op[0] == 'modify':
-                        W.modify(op[1]); dirty[op[1]] += 1
-                    elif op[0] == 'create':
-                        W.create(op[1], op[2]); dirty.append(1)
-                    elif op[0] == 'delete':
-                        W.reg[op[1]].delete()
+                    if op[0] == 'delete': W.reg[op[1]].delete()
+                    else:
+                        W.run_op(op)
+                        while len(dirty) < len(W.reg): dirty.append(1)
+                        if op[0] == 'modify': dirty[op[1]] += 1
+                        elif op[0] == 'setref': dirty[op[1]] += 1
                 except (core.OperationWithDeletedObjectError, HookScriptError, core.ConstraintError):
                     pass            # the generator does not know about cascades: an impossible pre-op is simply skipped
             while len(dirty) < len(W.reg): dirty.append(1)
             W.log = []; W.sql = []; W.calls = {}
+            view, padd, prem = link_state(W)
+            dbl = [[g - 1, t - 1] for g, t in raw.execute('select "%s", "%s" from "%s"' % (W.link_g_col, W.link_t_col, W.link_table))]
             init_state = {'objs': [[o._status_, dirty[i]] for i, o in enumerate(W.reg)],
                           'queue': [None if o is None else W.oid[o] for o in cache.objects_to_save],
-                          'modified': bool(cache.modified)}
+                          'modified': bool(cache.modified),
+                          'links': {'view': view, 'pendAdd': padd, 'pendRem': prem, 'db': sorted(dbl)}}
             res['init_state'] = init_state
-            n_pre = len(W.reg)
             target = None
             if case['action'] == 'entity_flush':
                 pend = [i for i, o in enumerate(W.reg) if o._status_ in KIND_OF_STATUS]
@@ -267,20 +361,25 @@ def run_real(W, case):
             except (core.OperationWithDeletedObjectError, HookScriptError) as e:
                 res['error'] = 'hookRaised'
             res['log'] = [list(x) for x in W.log]
-            res['traced_writes'] = len([e for e in W.tr.db_events(W.tr.since(m2)) if e['call'] == 'execute' and e['kind'] in ('insert', 'update', 'delete')])
+            evs = W.tr.db_events(W.tr.since(m2))
+            res['traced_writes'] = len([e for e in evs if e['call'] == 'execute' and e['kind'] in ('insert', 'update', 'delete')])
+            res['traced_batches'] = len([e for e in evs if e['call'] == 'executemany'])
+            v2, a2, r2 = link_state(W)
             res['final'] = {'objs': [o._status_ if o._status_ != 'cancelled' else 'deleted' for o in W.reg],
-                            'queue': [W.oid[o] for o in cache.objects_to_save if o is not None], 'modified': bool(cache.modified)}
+                            'queue': [W.oid[o] for o in cache.objects_to_save if o is not None], 'modified': bool(cache.modified),
+                            'links': {'view': v2, 'pendAdd': a2, 'pendRem': r2}}
             res['refs'] = [list(r) for r in W.refs]
             res['cls'] = list(W.cls)
             res['pending_after'] = [i for i, o in enumerate(W.reg) if o._status_ in KIND_OF_STATUS]
             if res['error']:
                 rollback()
             else:
-                res['log_len_at_flush_end'] = len(W.log)
                 commit()
                 res['commit_log'] = [list(x) for x in W.log]
                 res['expected'] = list(W.expected)
                 res['status_end'] = [o._status_ for o in W.reg]
+                res['links_end'] = sorted(list(p) for p in W.links)
+                res['refs_end'] = [list(r) for r in W.refs]
     except (core.OperationWithDeletedObjectError, HookScriptError) as e:
         res['commit_hook_error'] = True       # a scripted hook of the flush inside commit() touched a deleted / unknown object
     except core.TransactionError as e:
@@ -288,7 +387,10 @@ def run_real(W, case):
         else: res['commit_error'] = type(e).__name__ + ': ' + str(e)[:200]
     except Exception as e:            # any other error at commit after a successful flush
         res['commit_error'] = type(e).__name__ + ': ' + str(e)[:200]
-    res['db'] = {'G': dict(W.raw.execute('select id, a from "G"').fetchall()), 'I': dict(W.raw.execute('select id, a from "I"').fetchall())}
+    res['db'] = {'G': dict(raw.execute('select id, a from "G"').fetchall()), 'I': dict(raw.execute('select id, a from "I"').fetchall()),
+                 'T': dict(raw.execute('select id, a from "T"').fetchall()),
+                 'Iref': dict(raw.execute('select id, g from "I"').fetchall()),
+                 'links': sorted([g - 1, t - 1] for g, t in raw.execute('select "%s", "%s" from "%s"' % (W.link_g_col, W.link_t_col, W.link_table)))}
     return res
 
 
@@ -302,6 +404,7 @@ def once_oracle(log, complete):
     armed = {}       # (kind, oid) -> index of the before entry waiting for its statement
     written = {}     # (kind, oid) -> index of the statement waiting for its after entry
     for i, (ph, kind, oid) in enumerate(log):
+        if ph in ('linkIns', 'linkDel'): continue
         k = (kind, oid)
         if ph == 'before':
             if k in armed: bad.append(('double-before', 'before_%s entered twice for one statement' % kind, i))
@@ -320,8 +423,20 @@ def once_oracle(log, complete):
     return bad
 
 
+def canon_log(log):
+    """the rows of one executemany batch come from a set: sort every run of consecutive link events of the same kind"""
+    out = []; i = 0
+    while i < len(log):
+        if log[i][0] in ('linkIns', 'linkDel'):
+            j = i
+            while j < len(log) and log[j][0] == log[i][0]: j += 1
+            out.extend(sorted(log[i:j])); i = j
+        else:
+            out.append(log[i]); i += 1
+    return out
+
 def brief(case):
-    return {'init': case['init'], 'pre': case['pre'], 'action': case['action'], 'pick': case.get('pick'),
+    return {'init': case['init'], 'links0': case.get('links0', []), 'pre': case['pre'], 'action': case['action'], 'pick': case.get('pick'),
             'script': [e for e in case['script'] if any(e['calls']) or e['rest']]}
 
 def shrink_key(case, res, tag):
@@ -333,16 +448,23 @@ def check_case(ctx, W, case, pending):
     name = case.get('name')
     if res.get('skipped'):
         ctx.count('skipped:' + res['skipped']); return
+    if 'init_state' not in res:
+        raise RuntimeError('the session could not be set up: %r / %r' % (res.get('commit_error'), brief(case)))
     log = res.get('log', [])
     nrounds = 0; prev = None
     for ph, _, _ in log:
         if ph == 'before' and prev != 'before': nrounds += 1
         prev = ph
-    ctx.case([case['init'], case['pre'], case['action'], case.get('pick'), [[e['phase'], e['kind'], e['obj'], e['calls'], e['rest']] for e in case['script'] if any(e['calls']) or e['rest']]],
+    ctx.case([case['init'], case.get('links0', []), case['pre'], case['action'], case.get('pick'), [[e['phase'], e['kind'], e['obj'], e['calls'], e['rest']] for e in case['script'] if any(e['calls']) or e['rest']]],
              kind='action:' + case['action'])
     ctx.count('rounds:%s' % (nrounds if nrounds < 4 else ('4-49' if nrounds < 50 else '50')))
     ctx.count('outcome:' + (res['error'] or 'ok'))
-    ctx.count('hook-entries', len([1 for e in log if e[0] != 'stmt'])); ctx.count('statements', len([1 for e in log if e[0] == 'stmt']))
+    ctx.count('hook-entries', len([1 for e in log if e[0] in ('before', 'after')])); ctx.count('statements', len([1 for e in log if e[0] == 'stmt']))
+    ctx.count('link-rows-written', len([1 for e in log if e[0] in ('linkIns', 'linkDel')]))
+    hook_ops = [op[0] for e in case['script'] for c in e['calls'] for op in c]
+    if any(o in ('link', 'unlink', 'createT_link') or False for o in hook_ops) or any(op[0] == 'create' and len(op) > 3 for e in case['script'] for c in e['calls'] for op in c):
+        ctx.count('script-with-m2m-ops-in-hooks')
+    if 'setref' in hook_ops: ctx.count('script-with-reference-change-in-hooks')
     if any(len(W_refs) for W_refs in res.get('refs', [])): ctx.count('with-references')
     n_init = len(res['init_state']['objs'])
     if len(res.get('cls', [])) > n_init: ctx.count('objects-created-inside-hooks', len(res['cls']) - n_init)
@@ -380,6 +502,15 @@ def check_case(ctx, W, case, pending):
                 ctx.violation('lifecycle hooks and statements are not one-to-one (including the commit): ' + what, inp,
                               observed={'log': res['commit_log'][max(0, i - 6): i + 4]}, expected='once-before / once-after per statement',
                               key=shrink_key(case, res, 'commit:' + key))
+            gone = set(i for i, st in enumerate(res['status_end']) if st in ('deleted', 'cancelled', 'marked_to_delete'))
+            exp_links = sorted(p for p in res['links_end'] if p[0] not in gone and p[1] not in gone)
+            if res['db']['links'] != exp_links:
+                ctx.violation('the many-to-many link rows in the database after commit differ from the links made in the session (before the flush and inside hooks)',
+                              inp, observed={'link_table': res['db']['links']}, expected=exp_links, key='db:links-differ')
+            for oid, (cls, refs, st) in enumerate(zip(res['cls'], res['refs_end'], res['status_end'])):
+                if cls == 'I' and oid not in gone and res['db']['Iref'].get(oid + 1) != refs[0] + 1:
+                    ctx.violation('a reference assigned before the flush or inside a hook is missing in the database after commit', inp,
+                                  observed={'obj': oid, 'db_g': res['db']['Iref'].get(oid + 1)}, expected=refs[0] + 1, key='db:reference-lost')
             for oid, (cls, exp, st) in enumerate(zip(res['cls'], res['expected'], res['status_end'])):
                 row = res['db'][cls].get(oid + 1)
                 if st in ('deleted', 'cancelled', 'marked_to_delete'):
@@ -397,8 +528,7 @@ def check_case(ctx, W, case, pending):
             rounds[-1].append(oid)
         prev = ph
     script = [{'before': e['phase'] == 'before', 'kind': e['kind'], 'obj': e['obj'],
-               'calls': [[[op[0]] if op[0] == 'create' else [op[0], op[1]] for op in c] for c in e['calls']],
-               'rest': [[op[0]] if op[0] == 'create' else [op[0], op[1]] for op in e['rest']]} for e in case['script']]
+               'calls': [model_ops(c) for c in e['calls']], 'rest': model_ops(e['rest'])} for e in case['script']]
     if case['action'] == 'entity_flush':
         req = {'op': 'entityFlush', 'state': res['init_state'], 'script': script, 'bfuel': 100000, 'obj': res['target'],
                'refs': res['refs'], 'saved': [e[2] for e in stmts]}
@@ -422,13 +552,15 @@ def check_model(ctx, pending):
         if merr != real_err:
             ctx.divergence('flush outcome differs between model and real Pony', inp, model=merr, impl=real_err); continue
         if st is None: continue           # a hook raised: nothing more is compared
-        mlog = st['trace']
+        mlog = canon_log(st['trace']); rlog = canon_log(res['log'])
+        res = dict(res, log=rlog)
         if mlog != res['log']:
             i = next((i for i, (a, b) in enumerate(zip(mlog, res['log'])) if a != b), min(len(mlog), len(res['log'])))
             ctx.divergence('hook / statement trace differs between model and real Pony', inp,
                            model={'at': i, 'model': mlog[i:i + 5]}, impl={'real': res['log'][i:i + 5], 'lens': [len(mlog), len(res['log'])]})
             continue
-        mfinal = {'objs': [o[0] for o in st['objs']], 'queue': [q for q in st['queue'] if q is not None], 'modified': st['modified']}
+        mfinal = {'objs': [o[0] for o in st['objs']], 'queue': [q for q in st['queue'] if q is not None], 'modified': st['modified'],
+                  'links': {k: sorted(st['links'][k]) for k in ('view', 'pendAdd', 'pendRem')}}
         if mfinal != res['final']:
             ctx.divergence('cache state after the flush differs between model and real Pony', inp, model=mfinal, impl=res['final'])
 
@@ -455,7 +587,7 @@ def replay(ctx, data):
         pending = []
         inp = data.get('input') or {}
         if 'init' in inp:
-            check_case(ctx, W, {'init': inp['init'], 'pre': inp['pre'], 'script': inp['script'], 'action': inp['action'], 'pick': inp.get('pick') or 0}, pending)
+            check_case(ctx, W, {'init': inp['init'], 'links0': inp.get('links0', []), 'pre': inp['pre'], 'script': inp['script'], 'action': inp['action'], 'pick': inp.get('pick') or 0}, pending)
             check_model(ctx, pending)
         else:
             run(ctx)
